@@ -1,0 +1,57 @@
+// Copyright 2023 The Go Authors. All rights reserved.
+// Use of this source code is governed by a BSD-style
+// license that can be found in the LICENSE file.
+
+//go:build verif && (!goexperiment.jsonv2 || !go1.25)
+
+package jsonwire
+
+// Contracts for decode.go. Clauses are //@ comments keyed by function name and
+// loop ordinal (source order); spec functions are ghost Go.
+
+//@ spec isWS
+func isWS(c byte) bool { return c == ' ' || c == '\t' || c == '\r' || c == '\n' }
+
+//@ func ConsumeWhitespace
+//@ property C01 C20
+//@ ensures range: 0 <= n && n <= len(b)
+//@ ensures allws: vForall(0, n, func(i int) bool { return isWS(b[i]) })
+//@ ensures maximal: n == len(b) || !isWS(b[n])
+//@ loop 0 invariant 0 <= n && n <= len(b)
+//@ loop 0 invariant vForall(0, n, func(i int) bool { return isWS(b[i]) })
+//@ loop 0 decreases len(b) - n
+
+//@ func ConsumeNull
+//@ property C01 C20
+//@ ensures iff: (result == 4) == (len(b) >= 4 && b[0] == 'n' && b[1] == 'u' && b[2] == 'l' && b[3] == 'l')
+//@ ensures values: result == 0 || result == 4
+
+//@ func ConsumeFalse
+//@ property C01 C20
+//@ ensures iff: (result == 5) == (len(b) >= 5 && b[0] == 'f' && b[1] == 'a' && b[2] == 'l' && b[3] == 's' && b[4] == 'e')
+//@ ensures values: result == 0 || result == 5
+
+//@ func ConsumeTrue
+//@ property C01 C20
+//@ ensures iff: (result == 4) == (len(b) >= 4 && b[0] == 't' && b[1] == 'r' && b[2] == 'u' && b[3] == 'e')
+//@ ensures values: result == 0 || result == 4
+
+// matchLen is the length of the longest common prefix of b and lit.
+//@ spec matchLen
+func matchLen(b []byte, lit string, k int) int {
+	if k >= len(b) || k >= len(lit) || b[k] != lit[k] {
+		return k
+	}
+	return matchLen(b, lit, k+1)
+}
+
+//@ func ConsumeLiteral
+//@ property C01 C20
+//@ ensures ok-iff: (err == nil) == (matchLen(b, lit, 0) == len(lit))
+//@ ensures ok-n: err == nil ==> n == len(lit)
+//@ ensures eof-iff: (err == io.ErrUnexpectedEOF) == (matchLen(b, lit, 0) == len(b) && len(b) < len(lit))
+//@ ensures eof-n: err == io.ErrUnexpectedEOF ==> n == len(b)
+//@ ensures bad-n: err != nil && err != io.ErrUnexpectedEOF ==> n == matchLen(b, lit, 0) && n < len(b) && n < len(lit)
+//@ loop 0 invariant 0 <= i && i <= len(b) && i <= len(lit)
+//@ loop 0 invariant matchLen(b, lit, i) == matchLen(b, lit, 0)
+//@ loop 0 decreases len(b) - i
